@@ -350,7 +350,11 @@ fn parse_interface(pair: Pair<Rule>, allow_undefined_behavior: bool) -> Rc<Node>
                 iface_nodes.push(node);
             }
             Rule::COMMENT => {
-                comment = Documentation::try_from(rule).ok();
+                // An ordinary comment between a documentation block and its member must not
+                // discard the documentation; only a newer documentation block replaces it.
+                if let Ok(doc) = Documentation::try_from(rule) {
+                    comment = Some(doc);
+                }
             }
             _ => unreachable!(),
         }
